@@ -38,3 +38,9 @@ Definition map_opt {X Y} (f : X -> option Y) (l : list X) : option (list Y) := s
 
 Fixpoint zip {X Y} (l1 : list X) (l2 : list Y) : list (X * Y) :=
   match l1, l2 with x :: t1, y :: t2 => (x, y) :: zip t1 t2 | _, _ => [] end.
+
+(* l[k] with Python's negative indexes; None = IndexError *)
+Definition py_getitem {X} (l : list X) (k : Z) : option X :=
+  let n := Z.of_nat (length l) in
+  if ((k <? - n) || (n <=? k))%Z then None
+  else nth_error l (Z.to_nat (if (k <? 0)%Z then k + n else k)%Z).
